@@ -4,15 +4,15 @@
 VERIF="$(cd "$(dirname "$0")/.." && pwd)"
 export RESULTS_FILE="${1:-$VERIF/seeded/benign/RESULTS.tsv}" MUT_TAG=ben
 ALL="C01 C02 C03 C04 C05 C06 C07 C08 C09 C10 C11 C12 C13 C14 C15 C16 C17 C18 C19 C20"
-for d in $VERIF/seeded/benign/*/; do
+for d in $VERIF/seeded/benign/${BENIGN_GLOB:-*}/; do
   s=benign/$(basename $d)
   case "$s" in
     benign/B*) props="$ALL";;
-    benign/R-automata*) props="C02 C04 C05 C13 C14 C19";;
-    benign/R-hashcons*) props="C01 C02 C05 C07 C10 C16 C18 C19";;
-    benign/R-intervals*) props="C01 C02 C03 C11 C12 C13 C14 C15 C20";;
-    benign/R-regex*) props="C01 C02 C03 C04 C05 C07 C10 C14 C16 C18 C19";;
-    benign/R-strings*) props="C06 C08 C09 C10 C17";;
+    benign/R-automata*|benign/R2-automata*) props="C02 C04 C05 C13 C14 C19";;
+    benign/R-hashcons*|benign/R2-hashcons*) props="C01 C02 C05 C07 C10 C16 C18 C19";;
+    benign/R-intervals*|benign/R2-intervals*) props="C01 C02 C03 C11 C12 C13 C14 C15 C20";;
+    benign/R-regex*|benign/R2-regex*) props="C01 C02 C03 C04 C05 C07 C10 C14 C16 C18 C19";;
+    benign/R-strings*|benign/R2-strings*) props="C06 C08 C09 C10 C17";;
     *) props="$ALL";;
   esac
   $VERIF/tools/seed_matrix2.sh quick "$s" $props
